@@ -7,6 +7,15 @@ TRUSTED = [
     "Coq 8.16.1 kernel (coqc), vm_compute for case evaluation; no native_compute",
     "hand-written model props/C19/coq/Model.v of mustWriteFileAtomic/StartSearch/doSearch/loadAsyncSearches/"
     "FetchSearchResult and seq.MergeQPRs (tied to /repo by the correspondence run, not verified code)",
+    "hand-written model props/C19/coq/ModelStart.v of Ingestor.StartAsyncSearch (replica loop, per-shard error check; every error kind "
+    "is one SRefuse) and of the buffer ownership in processFrac (Acquire, Compress, file write, Release as steps; the bytes pool "
+    "abstracted to 'any free or fresh buffer may be handed out', size classes and sync.Pool internals not modelled)",
+    "proxy-start class: stateful scripted StoreApiClients that behave like storeapi.GrpcV1 (a store that accepted a start answers "
+    "later fetches with a real store-handler answer, any other store says NotFound); a deadline is a store that cancels the "
+    "caller's context and blocks on it; the fetch with an unreachable holder is judged directly by the harness (not modelled)",
+    "pool-pressure class: the interleaving is produced by wrapping the fractions (Info() hands over to another goroutine that "
+    "acquires/poisons/releases buffers of 256 B .. 128 KiB, GOMAXPROCS(1)); the plan evaluated in the model is an abstract "
+    "rendering of that interleaving (buffer identities inside sync.Pool are not observable)",
     "Go harness harness/cmd/hC19 (generators, canonical rendering of QPRs, classification of file contents) and the "
     "shared crash-state builder harness/internal/crashfs (strace log -> directory states) + storectl (child processes)",
     "overlap class: the fetch takes its snapshot at the resumed state or a later one (scheduler dependent); the model check accepts "
@@ -23,6 +32,9 @@ ASSUME = [
     "at most 8096 samples per aggregation bin (reservoir replacement is order dependent); float values are multiples of 1/16 "
     "with sums below 2^53 (exact arithmetic)",
     "file-system model of crashfs: directory operations durable in issue order, file data durable up to the last fsync",
+    "every shard of the proxy's store configuration has at least one replica (an empty shard is skipped by StartAsyncSearch and "
+    "makes FetchAsyncSearchResult dereference a nil response); the other users of the global bytes pool respect its contract: they "
+    "write only into buffers they hold and release each of them once",
     "fractions that existed at start are not removed and do not change before the request completes (new fractions may "
     "appear: ingest/rotation after a restart is part of the crash chains); one request at a time (Parallelism 1)",
 ]
@@ -41,7 +53,14 @@ RULE = ("request IDs as uuid.New() makes them with every final hex digit 0-f ove
         "search.Ingestor over 1-3 shards x replicas of scripted clients; StartAsyncSearch's request goes to the real store handler of "
         "every shard, FetchAsyncSearchResult gets REAL store-handler answers taken at every progress of each shard (unknown, i of n "
         "partial results persisted and not resumed, resumed, done) in every combination (sampled in quick); non-trivial there = at least "
-        "2 answering shards and one still running; distinct by input")
+        "2 answering shards and one still running; proxy-start class: per cluster 16 (thorough 48) scripted reply patterns to "
+        "StartAsyncSearch over 1-3 shards x 1-3 replicas (one shard down single-/multi-replica, first/last shard down, failover only, all "
+        "accept, random, all down; refusals Unavailable / plain error / ResourceExhausted / deadline), the calls made and whether an ID came "
+        "back, then FetchAsyncSearchResult with that ID against the stores that accepted (real answers at random progress): spec = an ID only "
+        "if every shard has an accepting replica, a started search is found, Done only if every shard is done and then the synchronous "
+        "answer over ALL shards; plus the same fetch with one holder unreachable (must not be Done); non-trivial there = at least 2 shards and "
+        "one refusing replica; pool-pressure class: per world the uninterrupted run with pool traffic between compression and file "
+        "write of every fraction: every .qpr must decode to its fraction's result and the answer equal the synchronous one; distinct by input")
 
 
 def harness_args(tier, seed, outdir):
